@@ -192,8 +192,32 @@ Proof.
   - intros H t' tn Hin. apply adel_in in Hin. exact (H _ _ Hin).
 Qed.
 
-Lemma collect_frame E n vals nss s :
-  let r := collect_completed E n (vals, nss, s) in
+Lemma aset_in0 {A} k (v : A) l k' v' : In (k', v') (aset k v l) -> (k' = k /\ v' = v) \/ In (k', v') l.
+Proof.
+  induction l as [|[k2 v2] l IH]; cbn [aset In].
+  - intros [H|[]]. inversion H; subst. left. auto.
+  - destruct (k =? k2) eqn:E; cbn [In].
+    + intros [H|H]; [inversion H; subst; left; auto|right; right; exact H].
+    + intros [H|H]; [right; left; exact H|]. destruct (IH H) as [X|X]; [left; exact X|right; right; exact X].
+Qed.
+
+(* marking a task node as owed changes nothing the invariants look at *)
+Lemma mark_owed_frame s t tn :
+  aget t (tnodes s) = Some tn ->
+  let s' := set_tnodes (aset t (mkT (tn_done tn) (tn_streams tn) true) (tnodes s)) s in
+  frame s s' /\ roots s' = roots s /\ gnodes s' = gnodes s.
+Proof.
+  intros A s'. split; [|split; reflexivity].
+  constructor; cbn [s' set_tnodes gnodes rstreams spos sstarted sended tnodes]; auto.
+  - apply shrink_refl.
+  - intros H t' tn' Hin. apply aset_in0 in Hin as [[_ ->]|Hin]; [|exact (H _ _ Hin)].
+    cbn [tn_streams]. apply (H t tn). clear -A.
+    induction (tnodes s) as [|[k v] l IH]; cbn in *; [discriminate|].
+    destruct (t =? k) eqn:E; [apply N.eqb_eq in E; inversion A; subst; left; reflexivity|right; auto].
+Qed.
+
+Lemma collect_frame E oo n vals nss s :
+  let r := collect_completed E oo n (vals, nss, s) in
   frame s (snd r) /\ roots (snd r) = roots s /\
   ((forall t tn, In (t, tn) (tnodes s) -> tn_streams tn = []) -> snd (fst r) = nss).
 Proof.
@@ -205,7 +229,15 @@ Proof.
     ((forall t tn, In (t, tn) (tnodes s0) -> tn_streams tn = []) -> snd (fst (fold_left f l (v, x, s0))) = x)).
   { induction l as [|t l IH]; intros v x s0 _; cbn [fold_left].
     - split; [apply frame_refl|]. split; [reflexivity|]. intros _. reflexivity.
-    - subst f. cbn beta iota. destruct (aget t (tnodes s0)) as [tn|] eqn:A.
+    - subst f. cbn beta iota.
+      destruct (oo && existsb (fun g => ahas g (gnodes s0)) (tgroups E t)).
+      { destruct (aget t (tnodes s0)) as [tn|] eqn:A; [|apply IH; right; exact I].
+        destruct (mark_owed_frame s0 t tn A) as (F & R & _). cbn zeta in F, R.
+        destruct (IH v x (set_tnodes (aset t (mkT (tn_done tn) (tn_streams tn) true) (tnodes s0)) s0) (or_intror I))
+          as (F2 & R2 & X2).
+        split; [eapply frame_trans; eassumption|]. split; [congruence|].
+        intro Ht. apply X2. exact (fr_tst _ _ F Ht). }
+      destruct (aget t (tnodes s0)) as [tn|] eqn:A.
       + destruct (remove_task_frame E t s0) as [F R].
         destruct (IH (if tn_done tn then v ++ [t] else v) (x ++ tn_streams tn) (remove_task E t s0) (or_intror I))
           as (F2 & R2 & X2).
@@ -326,13 +358,16 @@ Proof.
   destruct (aget g gn) as [n|]; [|apply IH; exact H]. apply IH. apply aset_keeps. exact H.
 Qed.
 
-Lemma collect_keeps E n vals nss s : keeps s (snd (collect_completed E n (vals, nss, s))).
+Lemma collect_keeps E oo n vals nss s : keeps s (snd (collect_completed E oo n (vals, nss, s))).
 Proof.
   unfold collect_completed.
   set (f := fun (st : list N * list N * state) t => _).
   assert (H : forall l v x s0, keeps s0 (snd (fold_left f l (v, x, s0)))).
   { induction l as [|t l IH]; intros v x s0; cbn [fold_left]; [intros k Hk; exact Hk|].
-    subst f. cbn beta iota. destruct (aget t (tnodes s0)) as [tn|]; [|apply IH].
+    subst f. cbn beta iota.
+    destruct (oo && existsb (fun g => ahas g (gnodes s0)) (tgroups E t)).
+    { destruct (aget t (tnodes s0)) as [tn|]; [|apply IH]. intros k Hk. apply IH. exact Hk. }
+    destruct (aget t (tnodes s0)) as [tn|]; [|apply IH].
     intros k Hk. apply IH. apply remove_task_keeps. exact Hk. }
   apply H.
 Qed.
@@ -388,14 +423,13 @@ Proof.
         pose proof (aget_in _ _ _ A) as Hin.
         (* the optional flush *)
         assert (Hfl : exists vals1 s2,
-          (match flush, gn_children n with
-           | true, _ :: _ => collect_completed E n (vals, nss, s1)
-           | _, _ => (vals, nss, s1)
-           end) = (vals1, nss, s2) /\ frame s1 s2 /\ roots s2 = roots s1 /\ keeps s1 s2).
-        { destruct flush; [destruct (gn_children n) as [|ch chs]|].
-          - exists vals, s1. split; [reflexivity|]. split; [apply frame_refl|]. split; [reflexivity|intros k Hk; exact Hk].
-          - pose proof (collect_frame E n vals nss s1) as CF. pose proof (collect_keeps E n vals nss s1) as CK.
-            destruct (collect_completed E n (vals, nss, s1)) as [[v1 x1] s2]. cbn [fst snd] in CF, CK.
+          (if flush
+           then collect_completed E (match gn_children n with [] => true | _ :: _ => false end) n (vals, nss, s1)
+           else (vals, nss, s1)) = (vals1, nss, s2) /\ frame s1 s2 /\ roots s2 = roots s1 /\ keeps s1 s2).
+        { destruct flush.
+          - set (oo := match gn_children n with [] => true | _ :: _ => false end).
+            pose proof (collect_frame E oo n vals nss s1) as CF. pose proof (collect_keeps E oo n vals nss s1) as CK.
+            destruct (collect_completed E oo n (vals, nss, s1)) as [[v1 x1] s2]. cbn [fst snd] in CF, CK.
             destruct CF as (CF1 & CF2 & CF3).
             assert (x1 = nss).
             { apply CF3. intros t tn Ht. apply (gi_tstreams _ _ _ HGI t tn). exact Ht. }
@@ -493,8 +527,8 @@ Proof.
   set (s1 := set_gnodes (adel g (gnodes s)) s).
   assert (F1 : frame s s1) by apply frame_adel.
   pose proof (aget_in _ _ _ A) as Hin.
-  pose proof (collect_frame E n [] [] s1) as CF. pose proof (collect_keeps E n [] [] s1) as CK.
-  destruct (collect_completed E n ([], [], s1)) as [[vals0 nss0] s2]. cbn [fst snd] in CF, CK.
+  pose proof (collect_frame E false n [] [] s1) as CF. pose proof (collect_keeps E false n [] [] s1) as CK.
+  destruct (collect_completed E false n ([], [], s1)) as [[vals0 nss0] s2]. cbn [fst snd] in CF, CK.
   destruct CF as (F2 & R2 & X2).
   assert (nss0 = []) by (apply X2; intros t tn Ht; exact (gi_tstreams _ _ _ HGI t tn Ht)). subst nss0.
   assert (F02 : frame s s2) by (eapply frame_trans; eassumption).
@@ -773,7 +807,7 @@ Lemma start_task_frame t s :
 Proof.
   unfold start_task. destruct (ahas t (tnodes s)).
   - split; [apply frame_refl|]. split; [intros k Hk; exact Hk|reflexivity].
-  - destruct (frame_same_gnodes s (set_started (sadd t (started s)) (set_tnodes (aset t (mkT false []) (tnodes s)) s)))
+  - destruct (frame_same_gnodes s (set_started (sadd t (started s)) (set_tnodes (aset t (mkT false [] false) (tnodes s)) s)))
       as [F K]; cbn; auto.
     intros H t' tn Hin. apply aset_in in Hin as [[_ ->]|Hin]; [reflexivity|exact (H _ _ Hin)].
 Qed.
@@ -896,11 +930,11 @@ Proof.
   intros Hflat HP. unfold task_success. rewrite (Hflat t).
   set (s0 := set_settled (sadd t (settled s)) s).
   set (s1 := match aget t (tnodes s0) with
-             | Some tn => set_tnodes (aset t (mkT true (tn_streams tn)) (tnodes s0)) s0
+             | Some tn => set_tnodes (aset t (mkT true (tn_streams tn) (tn_owed tn)) (tnodes s0)) s0
              | None => s0 end).
   assert (H01 : frame s s1 /\ keeps s s1 /\ roots s1 = roots s).
   { subst s1. destruct (aget t (tnodes s0)) as [tn|] eqn:A.
-    - destruct (frame_same_gnodes s (set_tnodes (aset t (mkT true (tn_streams tn)) (tnodes s0)) s0)) as [F K]; cbn; auto.
+    - destruct (frame_same_gnodes s (set_tnodes (aset t (mkT true (tn_streams tn) (tn_owed tn)) (tnodes s0)) s0)) as [F K]; cbn; auto.
       intros H t' tn' Hin. apply aset_in in Hin as [[_ ->]|Hin]; [|exact (H _ _ Hin)].
       cbn [tn_streams]. apply (H t tn). apply aget_in. exact A.
     - destruct (frame_same_gnodes s s0) as [F K]; cbn; auto. }
@@ -1032,6 +1066,63 @@ Proof.
     rewrite (fr_spos _ _ Fr). exact (Hnext x Hx).
 Qed.
 
+Lemma rescue_frame E g n s :
+  let r := rescue E g n s in
+  frame s (snd r) /\ keeps s (snd r) /\ roots (snd r) = roots s.
+Proof.
+  unfold rescue.
+  set (f := fun (st : list N * state) t => _).
+  assert (H : forall l v s0, frame s0 (snd (fold_left f l (v, s0))) /\ keeps s0 (snd (fold_left f l (v, s0)))
+                             /\ roots (snd (fold_left f l (v, s0))) = roots s0).
+  { induction l as [|t l IH]; intros v s0; cbn [fold_left].
+    - split; [apply frame_refl|]. split; [intros k Hk; exact Hk|reflexivity].
+    - subst f. cbn beta iota. destruct (aget t (tnodes s0)) as [tn|]; [|apply IH].
+      destruct (tn_owed tn && tn_done tn && _); [|apply IH].
+      eapply frame_keeps_trans; [|apply IH].
+      destruct (remove_task_frame E t s0) as [F R]. split; [exact F|]. split; [apply remove_task_keeps|exact R]. }
+  apply H.
+Qed.
+
+(* failure of one group with the rescue of the values owed to pruned groups *)
+Lemma fail_step_rescue E s nst g n :
+  Phi E s nst -> aget g (gnodes s) = Some n ->
+  let '(vals, sr) := if memN g (roots s) then rescue E g n s else ([], s) in
+  let n' := match aget g (gnodes sr) with Some m => m | None => n end in
+  let s' := remove_group_top E g n' sr in
+  let s'' := set_roots (sdel g (roots s')) s' in
+  let evs := (match vals with [] => [] | _ :: _ => [GroupValues g vals] end) ++ [GroupFailure g] in
+  nsteps nst evs = Some (n_close (gkey g) nst) /\ Phi E s'' (n_close (gkey g) nst) /\
+  shrink (gnodes s) (gnodes s'') /\ announced_groups evs = [].
+Proof.
+  intros HP A.
+  assert (Hsr : exists vals sr, (if memN g (roots s) then rescue E g n s else ([], s)) = (vals, sr) /\
+            frame s sr /\ keeps s sr /\ roots sr = roots s /\ (vals <> [] -> memN g (roots s) = true)).
+  { destruct (memN g (roots s)) eqn:M.
+    - pose proof (rescue_frame E g n s) as RF. destruct (rescue E g n s) as [vals sr]. cbn [snd] in RF.
+      destruct RF as (F & K & R). exists vals, sr. auto.
+    - exists [], s. split; [reflexivity|]. split; [apply frame_refl|]. split; [intros k Hk; exact Hk|].
+      split; [reflexivity|]. intro X. contradiction. }
+  destruct Hsr as (vals & sr & -> & F & K & R & Hv).
+  pose proof (PhiP_transport E s sr nst [] HP F R K) as HPr.
+  assert (Hn : aget g (gnodes sr) <> None) by (apply K; rewrite A; discriminate).
+  destruct (aget g (gnodes sr)) as [m|] eqn:Am; [|contradiction].
+  destruct (fail_step E sr nst g m HPr Am) as (HP3 & Sh3). cbn zeta in HP3, Sh3 |- *.
+  split.
+  - assert (HGF : nstep nst (GroupFailure g) = Some (n_close (gkey g) nst)).
+    { unfold nstep. rewrite (ph_closed _ _ _ _ HP). reflexivity. }
+    destruct vals as [|v vs]; cbn [app nsteps].
+    + rewrite HGF. reflexivity.
+    + assert (HGV : nstep nst (GroupValues g (v :: vs)) = Some nst).
+      { unfold nstep. rewrite (ph_closed _ _ _ _ HP).
+        assert (Hm : memN (gkey g) (n_open nst) = true).
+        { apply memN_true. apply (ph_open _ _ _ _ HP). left. exists g. split; [reflexivity|].
+          rewrite app_nil_r. apply memN_true. apply Hv. discriminate. }
+        rewrite Hm. reflexivity. }
+      rewrite HGV, HGF. reflexivity.
+  - split; [exact HP3|]. split; [eapply shrink_trans; [exact (fr_shrink _ _ F)|exact Sh3]|].
+    destruct vals; reflexivity.
+Qed.
+
 Lemma task_failure_ok E s nst t :
   Phi E s nst ->
   let '(evs, s') := task_failure E t s in
@@ -1045,31 +1136,29 @@ Proof.
   { apply frame_same_gnodes; cbn; auto. intros H t' tn Hin. apply adel_in in Hin. exact (H _ _ Hin). }
   destruct H01 as (F01 & K01).
   pose proof (PhiP_transport E s s1 nst [] HP F01 eq_refl K01) as HP1.
+  match goal with |- context [fold_left ?f (tgroups E t) _] => set (FF := f) end.
   assert (H : forall l evs s2 nst2, Phi E s2 nst2 ->
-    let '(evs', s') := fold_left (fun (st : list wqevent * state) g =>
-        let '(evs, s) := st in
-        match aget g (gnodes s) with
-        | Some n => let s' := remove_group_top E g n s in
-                    (evs ++ [GroupFailure g], set_roots (sdel g (roots s')) s')
-        | None => st end) l (evs, s2) in
+    let '(evs', s') := fold_left FF l (evs, s2) in
     exists nst' added, evs' = evs ++ added /\ nsteps nst2 added = Some nst' /\ Phi E s' nst' /\
       shrink (gnodes s2) (gnodes s') /\ announced_groups added = []).
   { induction l as [|g l IH]; intros evs s2 nst2 HP2; cbn [fold_left].
     - exists nst2, []. rewrite app_nil_r. split; [reflexivity|]. split; [reflexivity|]. split; [exact HP2|].
       split; [apply shrink_refl|reflexivity].
-    - destruct (aget g (gnodes s2)) as [n|] eqn:A; [|apply IH; exact HP2].
-      destruct (fail_step E s2 nst2 g n HP2 A) as (HP3 & Sh3). cbn zeta in HP3, Sh3.
-      specialize (IH (evs ++ [GroupFailure g]) _ _ HP3).
-      match goal with |- context [fold_left ?f l ?i] => destruct (fold_left f l i) as [evs' s'] end.
+    - unfold FF at 2. cbn beta iota.
+      destruct (aget g (gnodes s2)) as [n|] eqn:A; [|apply IH; exact HP2].
+      pose proof (fail_step_rescue E s2 nst2 g n HP2 A) as FS.
+      destruct (if memN g (roots s2) then rescue E g n s2 else ([], s2)) as [vals sr].
+      cbn zeta in FS. destruct FS as (S3 & HP3 & Sh3 & A3).
+      specialize (IH (evs ++ (match vals with [] => [] | _ :: _ => [GroupValues g vals] end) ++ [GroupFailure g]) _ _ HP3).
+      match goal with |- context [fold_left FF l ?i] => destruct (fold_left FF l i) as [evs' s'] end.
       destruct IH as (nst' & added & E1 & S1 & P1 & Sh1 & A1).
-      exists nst', (GroupFailure g :: added). split; [rewrite E1, <- app_assoc; reflexivity|].
-      split.
-      + cbn [nsteps]. unfold nstep at 1. destruct HP2 as [_ Hcl _ _ _ _ _ _ _]. rewrite Hcl. exact S1.
-      + split; [exact P1|]. split; [eapply shrink_trans; eassumption|].
-        change (GroupFailure g :: added) with ([GroupFailure g] ++ added).
-        rewrite announced_groups_app. cbn [announced_groups flat_map app]. exact A1. }
+      exists nst', (((match vals with [] => [] | _ :: _ => [GroupValues g vals] end) ++ [GroupFailure g]) ++ added).
+      split; [rewrite E1, <- !app_assoc; reflexivity|].
+      split; [rewrite nsteps_app, S3; exact S1|].
+      split; [exact P1|]. split; [eapply shrink_trans; eassumption|].
+      rewrite announced_groups_app, A3, A1. reflexivity. }
   specialize (H (tgroups E t) [] s1 nst HP1).
-  match goal with |- context [fold_left ?f (tgroups E t) ?i] => destruct (fold_left f (tgroups E t) i) as [evs s'] end.
+  destruct (fold_left FF (tgroups E t) ([], s1)) as [evs s'].
   destruct H as (nst' & added & E1 & S1 & P1 & Sh1 & A1). cbn [app] in E1. subst evs.
   exists nst'. split; [exact S1|]. split; [exact P1|]. split; [|exact A1].
   eapply shrink_trans; [exact (fr_shrink _ _ F01)|exact Sh1].
